@@ -81,7 +81,7 @@ NeedsSeparator(s, g) ==
         \/ WordLike(a) /\ TokText(s, g + 1) = "." /\ DefaultKind(s, g) # "none"   \* a leading dot stays apart
 Admissible(s, g, k) ==
   /\ g \in Gaps(s)
-  /\ IF NTok(s) = 0 THEN k \in BOFKinds \cup EOFKinds          \* no token at all: the one gap is the whole file
+  /\ IF NTok(s) = 0 THEN k \in BOFKinds \cup EOFKinds \cup {"sp2", "tab", "ff"}    \* no token at all: the one gap is the whole file
      ELSE IF g = 0 THEN k \in BOFKinds ELSE IF g = NTok(s) THEN k \in EOFKinds ELSE k \in GapKinds
   /\ NeedsSeparator(s, g) => Separates(k)
   /\ k # DefaultKind(s, g)
